@@ -60,6 +60,9 @@ pub enum OpKind {
     Rewrite { hay: u32, text: String },
     /// compile the spec afresh on this thread (hook armed) and run one find
     Compile { re: u32, hay: u32 },
+    /// replace_all_with whose closure panics on its k-th call (panic in user code: unwinds
+    /// out of the library between two matches, dropping the live iterator)
+    ReplacePanic { re: ReRef, hay: u32, k: u32 },
     /// the same find repeated n times on one Regex object: a long history (adaptive thresholds)
     Burst { re: ReRef, hay: u32, n: u32 },
 }
@@ -291,6 +294,7 @@ pub fn op_to_json(op: &Op) -> J {
             .set("inner", reref_to_json(inner)),
         OpKind::Rewrite { hay, text } => J::obj().set("op", J::s("rewrite")).set("hay", J::u(*hay as u64)).set("text", J::s(text)),
         OpKind::Compile { re, hay } => J::obj().set("op", J::s("compile")).set("re", J::u(*re as u64)).set("hay", J::u(*hay as u64)),
+        OpKind::ReplacePanic { re, hay, k } => J::obj().set("op", J::s("replace_panic")).set("re", reref_to_json(re)).set("hay", J::u(*hay as u64)).set("k", J::u(*k as u64)),
         OpKind::Burst { re, hay, n } => J::obj().set("op", J::s("burst")).set("re", reref_to_json(re)).set("hay", J::u(*hay as u64)).set("n", J::u(*n as u64)),
     };
     if op.cancel_at != 0 {
@@ -330,6 +334,7 @@ pub fn op_from_json(j: &J) -> Result<Op, String> {
         },
         "rewrite" => OpKind::Rewrite { hay: u("hay")?, text: j.get("text").and_then(|v| v.as_str()).ok_or("text")?.to_string() },
         "compile" => OpKind::Compile { re: u("re")?, hay: u("hay")? },
+        "replace_panic" => OpKind::ReplacePanic { re: reref_from_json(j.get("re").ok_or("re")?)?, hay: u("hay")?, k: u("k")? },
         "burst" => OpKind::Burst { re: reref_from_json(j.get("re").ok_or("re")?)?, hay: u("hay")?, n: u("n")? },
         _ => return Err(format!("unknown op {}", name)),
     };
